@@ -1,5 +1,6 @@
 import MidoProofs.SrcTie.Vlq
 import MidoProofs.SrcTie.Writer
+import MidoProofs.SrcTie.Reader
 import MidoProofs.SrcTie.Tracks
 #print axioms Mido.src_vlq_loop1
 #print axioms Mido.src_vlq_hi_loop
@@ -17,3 +18,11 @@ import MidoProofs.SrcTie.Tracks
 #print axioms Mido.packI16_eq
 #print axioms Mido.src_save_loop
 #print axioms Mido.src_save
+#print axioms Mido.src_read_bytes
+#print axioms Mido.src_read_sysex
+#print axioms Mido.src_read_meta_message
+#print axioms Mido.src_read_message
+#print axioms Mido.src_track_body
+#print axioms Mido.src_track_loop
+#print axioms Mido.src_read_chunk_header
+#print axioms Mido.src_read_track
